@@ -3,7 +3,7 @@ from layerb import gen, c01, common
 
 
 def run(tier='quick', seed=0, nproc=16):
-  n = 4 if tier == 'quick' else 5
+  n = 4 if tier == 'quick' else 6
   jobs = gen.shuffled([(s.kinds, s.hasdef, 2 if tier == 'quick' else 3) for s in gen.all_sigs(n)])
   res = common.pmap(c01.check_sig, jobs, nproc)
   return common.merge(
